@@ -203,6 +203,13 @@ def l2_models(ctx, common, tabs, which):
         run("FlowMC", lambda wd: beh.flow_behaviours(wd, 9 if q else 11, maxw=30), 30)
     if "markup" in which:
         run("MarkupMC", lambda wd: beh.markup_behaviours(wd, 4 if q else 5, maxw=20), 20)
+    if "dotchain" in which:
+        run("DotChainMC", lambda wd: beh.dotchain_behaviours(wd, 7 if q else 8, maxcmt=1 if q else 2), 44)
+    if "comment" in which:
+        run("CommentMC", lambda wd: beh.comment_behaviours(wd, 2 if q else 3), 16)
+    if "table" in which:
+        kinds = ["cols2", "cell", "hdr", "gutter"] if q else ["cols2", "colsA", "cell", "hdr", "ftr", "hline", "hdrS", "gutter", "spread"]
+        run("TableMC", lambda wd: beh.table_behaviours(wd, kinds, 4, maxw=20), 20)
     if "math" in which:
         run("MathArgsMC", lambda wd: beh.mathargs_behaviours(wd, 5 if q else 6, maxw=24), 24)
         run("MathDelimMC[block]", lambda wd: beh.mathdelim_behaviours(wd, 5 if q else 6, True, maxw=24), 24)
@@ -261,16 +268,16 @@ def fmt_family(ctx, rels, parts, seed_tags="", trivia_tags="", passes=False, gap
 
 def c01(ctx):
     # the tree projections are the heaviest events: C01's universe is a fixed third of the single placements
-    fmt_family(ctx, ["R01"], "tree", gap_quick="1/4", single_fixed="1/3", pair_fixed="1/1200", tabs="2,4", models=("list", "flow"))
+    fmt_family(ctx, ["R01"], "tree", gap_quick="1/4", single_fixed="1/3", pair_fixed="1/1200", tabs="2,4", models=("list", "flow", "table"))
 
 
 def c03(ctx):
     fmt_family(ctx, ["R03"], "none", passes=True, gap_quick="1/6", pair_fixed="1/200", tabs="2,4",
-               models=("list", "chain", "markup"), opt=True)
+               models=("list", "chain", "markup", "table", "dotchain", "comment"), opt=True)
 
 
 def c04(ctx):
-    fmt_family(ctx, ["R04"], "fmt", gap_quick="1/4", pair_fixed="1/100", tabs="2,4", models=("list", "chain", "flow"))
+    fmt_family(ctx, ["R04"], "fmt", gap_quick="1/4", pair_fixed="1/100", tabs="2,4", models=("list", "chain", "flow", "dotchain"))
 
 
 def c06(ctx):
@@ -278,7 +285,7 @@ def c06(ctx):
     ctx.record("gap-ro", universe="gap", widths="all", single="1/2" if ctx.quick else "1/1", pair="0/1", tabs="2", ros="1",
                seed_tags="import", trivia_tags="cmt,off", parts="flat", passes="false")
     fmt_family(ctx, ["R06"], "flat", trivia_tags="cmt,off", gap_quick="1/6", pair_fixed="1/200",
-               models=("list", "chain", "markup", "eq"))
+               models=("list", "chain", "markup", "eq", "table", "dotchain", "comment"))
 
 
 def c08(ctx):
@@ -299,7 +306,8 @@ def c11(ctx):
 
 
 def c12(ctx):
-    fmt_family(ctx, ["R12a", "R12b"], "lines,unit", gap_quick="1/12", pair_fixed="1/800", tabs="2,3,5,8")
+    fmt_family(ctx, ["R12a", "R12b"], "lines,unit", gap_quick="1/12", pair_fixed="1/800", tabs="2,3,5,8",
+               models=("list", "dotchain", "comment"))
 
 
 def c19(ctx):
